@@ -276,7 +276,7 @@ CLAIMS = {
              "bytes stored at the address (loop invariants). read_eeprom returns the identity fields and every "
              "category up to the end marker, keyed by type, exactly as stored: category lengths and contents are "
              "unbounded (invariant of get_data: the unconsumed bytes are the image between cursor and read "
-             "position), the number of categories is bounded (0-2 quick, 0-3 thorough). parse_sync_managers gives "
+             "position), the number of categories is bounded (0-2). parse_sync_managers gives "
              "each mailbox and process-data area the offset, size and register address of the last entry of its "
              "kind, for any number of entries (loop invariant with a ghost entry). parse_pdos (EEPROM source): the "
              "nested generator yields exactly the stored entries in order for categories of any number of PDOs and "
